@@ -74,6 +74,25 @@ fn native_gsbase() -> u64 {
     unsafe { asm!("rdgsbase {}", out(reg) v, options(nomem, nostack, preserves_flags)) };
     v
 }
+fn native_fsbase() -> u64 {
+    let v: u64;
+    unsafe { asm!("rdfsbase {}", out(reg) v, options(nomem, nostack, preserves_flags)) };
+    v
+}
+fn native_set_fsbase(v: u64) {
+    unsafe { asm!("wrfsbase {}", in(reg) v, options(nostack, preserves_flags)) };
+}
+/// GS base accessors under a guard: FS.base (the thread pointer) is saved before and restored right
+/// after the call, before anything can touch thread-local storage; a call that changed FS.base is
+/// reported as a write to the wrong register instead of crashing the harness
+#[inline(never)]
+fn guarded_gs_write(v: u64) -> bool {
+    let fs0 = native_fsbase();
+    unsafe { GS::write_base(VirtAddr::new(v)) };
+    let fs1 = native_fsbase();
+    native_set_fsbase(fs0);
+    fs1 == fs0
+}
 fn native_set_gsbase(v: u64) {
     unsafe { asm!("wrgsbase {}", in(reg) v, options(nostack, preserves_flags)) };
 }
@@ -292,7 +311,7 @@ fn call(fid: u64, a: &[u64], oc_unused: bool) -> R {
                 R::U
             }
             (272, []) => R::Z(GS::read_base().as_u64()),
-            (273, [v]) => { GS::write_base(VirtAddr::new(*v)); R::U }
+            (273, [v]) => { if guarded_gs_write(*v) { R::U } else { R::Z(0xbad0_f5ba_5e) } }
             (274, []) => { GS::swap(); R::U }
             (280, [sel]) => { x86_64::instructions::tables::load_tss(SegmentSelector(*sel as u16)); R::U }
             (300, []) => R::Z(mxcsr::read().bits() as u64),
